@@ -192,6 +192,14 @@ def adversaries(rnd, quick):
                         [('c', req), ('u', 1, resp), ('c', req2), ('u', 2 if role == 'reverse' else 1, resp), ('cclose',)], 'accept'))
             out.append(('%s: two keep-alive requests, second before the first answer' % role, role,
                         [('c', req), ('c', req2), ('u', 1, resp), ('u', 2 if role == 'reverse' else 1, resp), ('cclose',)], 'accept'))
+        if role == 'reverse':
+            # follow-up requests routed to ANOTHER upstream (and back): the connection to the previous upstream has to go properly
+            reqb = req.replace(b'/a/r1', b'/b/r2')
+            reqa = req.replace(b'/a/r1', b'/a/r3')
+            out.append(('reverse: keep-alive requests to upstream a, then b, then close', role,
+                        [('c', req), ('u', 1, resp), ('c', reqb), ('u', 2, resp), ('cclose',)], 'accept'))
+            out.append(('reverse: keep-alive requests to upstream a, b, a, then close', role,
+                        [('c', req), ('u', 1, resp), ('c', reqb), ('u', 2, resp), ('c', reqa), ('u', 3, resp), ('cclose',)], 'accept'))
         # failing upstreams
         for how in ('refuse', 'timeout', 'gaierror', 'unreach'):
             out.append(('%s: upstream connect %s' % (role, how), role, base[:3], how))
